@@ -189,13 +189,14 @@ def composite_operators(ctx, rule):
     for dunder, cls in (("__add__", "Struct"), ("__rshift__", "Sequence")):
         fi, paths = own_method_paths(ctx, "Construct", dunder)
         o = ("param", "other")
-        ok = len(paths) == 1
-        if ok:
-            r = paths[0].retval
-            isS = lambda x: ("call", ("free", "isinstance"), (x, ("free", cls)), ())
-            lhs = N.mk_ite(isS(SELF), ("attr", SELF, "subcons"), ("list", (SELF,)))
-            rhs = N.mk_ite(isS(o), ("attr", o, "subcons"), ("list", (o,)))
-            ok = r[0] == "ctor" and r[1] == cls and len(r[2]) == 1 and r[2][0][0] == "star" and r[2][0][1] in (("uconcat", lhs, rhs), ("concat", lhs, rhs))
+        isS = lambda x: ("call", ("free", "isinstance"), (x, ("free", cls)), ())
+        rets = [p for p in paths if p.returns]
+        ok = len(rets) == len(paths) and {(decided(p, isS(SELF)), decided(p, isS(o))) for p in rets} == {(a_, b_) for a_ in (True, False) for b_ in (True, False)}
+        for p in rets:
+            r = p.retval
+            lhs = ("attr", SELF, "subcons") if decided(p, isS(SELF)) else ("list", (SELF,))
+            rhs = ("attr", o, "subcons") if decided(p, isS(o)) else ("list", (o,))
+            ok = ok and r[0] == "ctor" and r[1] == cls and len(r[2]) == 1 and r[2][0][0] == "star" and r[2][0][1] in (("uconcat", lhs, rhs), ("concat", lhs, rhs))
         ctx.ob(rule, fi, ok, "a %s b is %s(*(members of a + members of b)), flattening %s operands only" % ("+" if cls == "Struct" else ">>", cls, cls), key=dunder)
         pure = not any(e.kind in ("SELFWRITE", "MUT", "STORE") for p in paths for e in p.events)
         ctx.ob(rule, fi, pure, "a %s b builds a new member list: neither operand's own list is extended in place (the composite on the left would grow with every derivation)" % ("+" if cls == "Struct" else ">>"), key=dunder + " operands untouched")
